@@ -18,6 +18,8 @@ def get_db(ctx):
     return _DB_CACHE[k]
 
 def to_line(c):
+    if ctxdesc.has_unmodelled(c['ctx']):
+        return None
     return '\t'.join(['PARSE', 'T' if c['tol'] else 'F', ctxdesc.enc_ctx(c['ctx']), psdesc.enc_desc(c.get('ps', {})), wire(c['s'])])
 
 def err_what(e):
@@ -36,7 +38,11 @@ def err_what(e):
 def make_walker(c):
     from pylatexenc import latexwalker
     db = get_db(c['ctx'])
-    w = latexwalker.LatexWalker(c['s'], latex_context=db, tolerant_parsing=c['tol'])
+    kw = {}
+    if c.get('offs'):
+        # the walker's documented keyword arguments for reported line / column numbers
+        kw = dict(line_number_offset=c['offs'][0], first_line_column_offset=c['offs'][1], column_offset=c['offs'][2])
+    w = latexwalker.LatexWalker(c['s'], latex_context=db, tolerant_parsing=c['tol'], **kw)
     return w
 
 def parse(c):
